@@ -36,7 +36,8 @@ def edit(r, lines):
     elif k < 0.8:
         lines[i] = r.choice(['  ', '    ', '\t', '']) + lines[i].lstrip(' \t')
     elif k < 0.88:
-        lines.insert(i, r.choice(gens.VALID))
+        nlc = '\r' if lines[i].endswith('\r') else '\r\n' if lines[i].endswith('\r\n') else '\n'
+        lines.insert(i, r.choice(gens.VALID).replace('\n', nlc))
     elif k < 0.94:
         lines[i] = lines[i].rstrip('\r\n')          # join with next / missing final newline
     else:
@@ -50,7 +51,13 @@ def edit(r, lines):
 def gen_history(r):
     kind, code = gens.text_case(r.random(), 'c04-seed', 0, ['valid', 'corpus', 'oneliner', 'valid'])
     from parso.utils import split_lines
-    lines = split_lines(code[:3000], keepends=True)
+    code = code[:3000]
+    nl = r.random()
+    if nl < 0.25:
+        code = code.replace('\r\n', '\n').replace('\n', '\r')        # classic Mac line breaks
+    elif nl < 0.4:
+        code = code.replace('\r\n', '\n').replace('\n', '\r\n')
+    lines = split_lines(code, keepends=True)
     hist = [''.join(lines)]
     saved = []
     for _ in range(r.randint(3, 7)):
